@@ -492,3 +492,1383 @@ Print Assumptions C08_teardown_empty_is_run.
 Theorem C08_reporter_always_refuted : ~ reporter_ok rep_always.
 Proof. exact reporter_always_refuted. Qed.
 Print Assumptions C08_reporter_always_refuted.
+
+(* --------------------------------------------------------------------------------------------------------------
+   SOURCE TIE: the expectation list MockExpectedCallsList (src/CppUTestExt/MockExpectedCallsList.cpp, 30 member functions) as translated on every run into gen/Gen_HeapC08L.v -- on the heap representation (a chain of 2-cell nodes) each function asks every expectation once in list order, keeps / removes / appends exactly what the answers say and frees exactly the dropped nodes (_spec); for the answers the model's expectations give, the candidate list represents the model's keep_if / only_keep_unmatching / take_first / first_pot / create / for_pot / fulfilled_for (_model)
+   -------------------------------------------------------------------------------------------------------------- *)
+From CppUVerif Require gen.Gen_HeapC08L C08_ListRep C08_ListTie.
+Local Open Scope Z_scope.
+Theorem C08_pruneEmptyNodeFromList_spec :
+  forall (fuel : nat) (h : CHeap.heap) (lb : nat) (ids : list Z) (nodes : list nat)
+  (evs : list Gen_HeapC08L.lev) (answers : list Z),
+  C08_ListRep.mlist0_at h lb ids nodes ->
+  (length ids < fuel)%nat ->
+  exists h' : CHeap.heap,
+  Gen_HeapC08L.src_mlist_pruneEmptyNodeFromList fuel h evs answers (CHeap.HPtr lb 0) =
+  CMem.FOk
+  (tt, h',
+  evs ++ map (fun b : nat => Gen_HeapC08L.LDelete (CHeap.HPtr b 0)) (C08_ListRep.dead_nodes ids nodes),
+  answers) /\
+  C08_ListRep.mlist_at h' lb (C08_ListRep.live_ids ids) (C08_ListRep.live_nodes ids nodes) /\
+  length h' = length h /\
+  (forall b : nat,
+  b <> lb -> ~ In b (C08_ListRep.live_nodes ids nodes) -> CHeap.hblock h' b = CHeap.hblock h b) /\
+  (forall b : nat, In b nodes -> nth_error (CHeap.hblock h' b) 0 = nth_error (CHeap.hblock h b) 0).
+Proof. exact C08_ListRep.pruneEmptyNodeFromList_spec. Qed.
+Print Assumptions C08_pruneEmptyNodeFromList_spec.
+
+Theorem C08_onlyKeepExpectationsRelatedTo_spec :
+  forall name : Z,
+  C08_ListRep.only_keep_ok
+  (fun (fuel : nat) (h : CHeap.heap) (evs : list Gen_HeapC08L.lev) (answers : list Z) (this_ : CHeap.hptr) =>
+  Gen_HeapC08L.src_mlist_onlyKeepExpectationsRelatedTo fuel h evs answers this_ name)
+  (C08_ListRep.zipw
+  (fun id a : Z =>
+  Gen_HeapC08L.LAskArg
+  (String.String (Ascii.Ascii false true false false true true true false)
+  (String.String (Ascii.Ascii true false true false false true true false)
+  (String.String (Ascii.Ascii false false true true false true true false)
+  (String.String (Ascii.Ascii true false false false false true true false)
+  (String.String (Ascii.Ascii false false true false true true true false)
+  (String.String (Ascii.Ascii true false true false false true true false)
+  (String.String (Ascii.Ascii true true false false true true true false)
+  (String.String (Ascii.Ascii false false true false true false true false)
+  (String.String (Ascii.Ascii true true true true false true true false)
+  String.EmptyString))))))))) id name a)) C08_ListRep.drops_zero.
+Proof. exact C08_ListRep.onlyKeepExpectationsRelatedTo_spec. Qed.
+Print Assumptions C08_onlyKeepExpectationsRelatedTo_spec.
+
+Theorem C08_onlyKeepUnmatchingExpectations_spec :
+  C08_ListRep.only_keep_ok Gen_HeapC08L.src_mlist_onlyKeepUnmatchingExpectations C08_ListRep.unm_events CSem.z2b.
+Proof. exact C08_ListRep.onlyKeepUnmatchingExpectations_spec. Qed.
+Print Assumptions C08_onlyKeepUnmatchingExpectations_spec.
+
+Theorem C08_hasExpectationWithName_spec :
+  forall name : Z,
+  C08_ListRep.has_ok
+  (fun (fuel : nat) (h : CHeap.heap) (evs : list Gen_HeapC08L.lev) (answers : list Z) (this_ : CHeap.hptr) =>
+  Gen_HeapC08L.src_mlist_hasExpectationWithName fuel h evs answers this_ name)
+  (fun id a : Z =>
+  Gen_HeapC08L.LAskArg
+  (String.String (Ascii.Ascii false true false false true true true false)
+  (String.String (Ascii.Ascii true false true false false true true false)
+  (String.String (Ascii.Ascii false false true true false true true false)
+  (String.String (Ascii.Ascii true false false false false true true false)
+  (String.String (Ascii.Ascii false false true false true true true false)
+  (String.String (Ascii.Ascii true false true false false true true false)
+  (String.String (Ascii.Ascii true true false false true true true false)
+  (String.String (Ascii.Ascii false false true false true false true false)
+  (String.String (Ascii.Ascii true true true true false true true false)
+  String.EmptyString))))))))) id name a) C08_ListRep.yes.
+Proof. exact C08_ListRep.hasExpectationWithName_spec. Qed.
+Print Assumptions C08_hasExpectationWithName_spec.
+
+Theorem C08_getFirstMatchingExpectation_spec :
+  forall (fuel : nat) (h : CHeap.heap) (lb : nat) (ids : list Z) (nodes : list nat)
+  (evs : list Gen_HeapC08L.lev) (answers : list Z),
+  C08_ListRep.mlist0_at h lb ids nodes ->
+  (length ids < fuel)%nat ->
+  let asks := C08_ListRep.asked C08_ListRep.yes ids answers in
+  (existsb C08_ListRep.yes asks = true \/ (length ids <= length answers)%nat ->
+  Gen_HeapC08L.src_mlist_getFirstMatchingExpectation fuel h evs answers (CHeap.HPtr lb 0) =
+  CMem.FOk
+  (C08_ListRep.first_id C08_ListRep.yes ids answers, h,
+  evs ++
+  C08_ListRep.zipw
+  (Gen_HeapC08L.LAsk
+  (String.String (Ascii.Ascii true false false true false true true false)
+  (String.String (Ascii.Ascii true true false false true true true false)
+  (String.String (Ascii.Ascii true false true true false false true false)
+  (String.String (Ascii.Ascii true false false false false true true false)
+  (String.String (Ascii.Ascii false false true false true true true false)
+  (String.String (Ascii.Ascii true true false false false true true false)
+  (String.String (Ascii.Ascii false false false true false true true false)
+  (String.String (Ascii.Ascii true false false true false true true false)
+  (String.String (Ascii.Ascii false true true true false true true false)
+  (String.String (Ascii.Ascii true true true false false true true false)
+  (String.String
+  (Ascii.Ascii true false false false false false true false)
+  (String.String
+  (Ascii.Ascii true true false false false true true false)
+  (String.String
+  (Ascii.Ascii false false true false true true true false)
+  (String.String
+  (Ascii.Ascii true false true false true true true false)
+  (String.String
+  (Ascii.Ascii true false false false false true true
+  false)
+  (String.String
+  (Ascii.Ascii false false true true false true true
+  false)
+  (String.String
+  (Ascii.Ascii true true false false false false
+  true false)
+  (String.String
+  (Ascii.Ascii true false false false false true
+  true false)
+  (String.String
+  (Ascii.Ascii false false true true false
+  true true false)
+  (String.String
+  (Ascii.Ascii false false true true false
+  true true false) String.EmptyString)))))))))))))))))))))
+  ids asks, skipn (length asks) answers)) /\
+  (existsb C08_ListRep.yes asks = false ->
+  (length answers < length ids)%nat ->
+  Gen_HeapC08L.src_mlist_getFirstMatchingExpectation fuel h evs answers (CHeap.HPtr lb 0) = CMem.FOob).
+Proof. exact C08_ListRep.getFirstMatchingExpectation_spec. Qed.
+Print Assumptions C08_getFirstMatchingExpectation_spec.
+
+Theorem C08_removeFirstMatchingExpectation_spec :
+  C08_ListRep.remove_first_ok Gen_HeapC08L.src_mlist_removeFirstMatchingExpectation
+  (String.String (Ascii.Ascii true false false true false true true false)
+  (String.String (Ascii.Ascii true true false false true true true false)
+  (String.String (Ascii.Ascii true false true true false false true false)
+  (String.String (Ascii.Ascii true false false false false true true false)
+  (String.String (Ascii.Ascii false false true false true true true false)
+  (String.String (Ascii.Ascii true true false false false true true false)
+  (String.String (Ascii.Ascii false false false true false true true false)
+  (String.String (Ascii.Ascii true false false true false true true false)
+  (String.String (Ascii.Ascii false true true true false true true false)
+  (String.String (Ascii.Ascii true true true false false true true false)
+  (String.String (Ascii.Ascii true false false false false false true false)
+  (String.String (Ascii.Ascii true true false false false true true false)
+  (String.String (Ascii.Ascii false false true false true true true false)
+  (String.String
+  (Ascii.Ascii true false true false true true true false)
+  (String.String
+  (Ascii.Ascii true false false false false true true false)
+  (String.String
+  (Ascii.Ascii false false true true false true true false)
+  (String.String
+  (Ascii.Ascii true true false false false false true false)
+  (String.String
+  (Ascii.Ascii true false false false false true true
+  false)
+  (String.String
+  (Ascii.Ascii false false true true false true true
+  false)
+  (String.String
+  (Ascii.Ascii false false true true false true
+  true false) String.EmptyString)))))))))))))))))))).
+Proof. exact C08_ListRep.removeFirstMatchingExpectation_spec. Qed.
+Print Assumptions C08_removeFirstMatchingExpectation_spec.
+
+Theorem C08_size_spec :
+  forall (fuel : nat) (h : CHeap.heap) (lb : nat) (ids : list Z) (nodes : list nat)
+  (evs : list Gen_HeapC08L.lev) (answers : list Z),
+  C08_ListRep.mlist0_at h lb ids nodes ->
+  (length ids < fuel)%nat ->
+  Gen_HeapC08L.src_mlist_size fuel h evs answers (CHeap.HPtr lb 0) =
+  CMem.FOk (Z.of_nat (length ids) mod 2 ^ 32, h, evs, answers).
+Proof. exact C08_ListRep.size_spec. Qed.
+Print Assumptions C08_size_spec.
+
+Theorem C08_size_wraps :
+  forall (fuel : nat) (h : CHeap.heap) (lb : nat) (ids : list Z) (nodes : list nat)
+  (evs : list Gen_HeapC08L.lev) (answers : list Z) (k r : Z),
+  C08_ListRep.mlist0_at h lb ids nodes ->
+  (length ids < fuel)%nat ->
+  Z.of_nat (length ids) = k * 2 ^ 32 + r ->
+  0 <= r < 2 ^ 32 ->
+  Gen_HeapC08L.src_mlist_size fuel h evs answers (CHeap.HPtr lb 0) = CMem.FOk (r, h, evs, answers).
+Proof. exact C08_ListRep.size_wraps. Qed.
+Print Assumptions C08_size_wraps.
+
+Theorem C08_isEmpty_spec :
+  forall (fuel : nat) (h : CHeap.heap) (lb : nat) (ids : list Z) (nodes : list nat)
+  (evs : list Gen_HeapC08L.lev) (answers : list Z),
+  C08_ListRep.mlist0_at h lb ids nodes ->
+  Gen_HeapC08L.src_mlist_isEmpty fuel h evs answers (CHeap.HPtr lb 0) =
+  CMem.FOk (CSem.b2z match ids with
+  | [] => true
+  | _ :: _ => false
+  end, h, evs, answers).
+Proof. exact C08_ListRep.isEmpty_spec. Qed.
+Print Assumptions C08_isEmpty_spec.
+
+Theorem C08_amountOfActualCallsFulfilledFor_spec :
+  forall (fuel : nat) (h : CHeap.heap) (lb : nat) (ids : list Z) (nodes : list nat)
+  (evs : list Gen_HeapC08L.lev) (answers : list Z) (name : Z),
+  C08_ListRep.mlist0_at h lb ids nodes ->
+  (length ids < fuel)%nat ->
+  Gen_HeapC08L.src_mlist_amountOfActualCallsFulfilledFor fuel h evs answers (CHeap.HPtr lb 0) name =
+  match C08_ListRep.ful_run name ids answers with
+  | Some (ev, s, rest) => CMem.FOk (s mod 2 ^ 32, h, evs ++ ev, rest)
+  | None => CMem.FOob
+  end.
+Proof. exact C08_ListRep.amountOfActualCallsFulfilledFor_spec. Qed.
+Print Assumptions C08_amountOfActualCallsFulfilledFor_spec.
+
+Theorem C08_addExpectedCall_spec_le :
+  forall (fuel : nat) (h : CHeap.heap) (lb : nat) (ids : list Z) (nodes : list nat)
+  (evs : list Gen_HeapC08L.lev) (answers : list Z) (call : Z),
+  C08_ListRep.mlist0_at h lb ids nodes ->
+  (length ids <= fuel)%nat ->
+  exists h' : CHeap.heap,
+  Gen_HeapC08L.src_mlist_addExpectedCall fuel h evs answers (CHeap.HPtr lb 0) call =
+  CMem.FOk (tt, h', evs ++ [Gen_HeapC08L.LNew (CHeap.HPtr (length h) 0)], answers) /\
+  C08_ListRep.mlist0_at h' lb (ids ++ [call]) (nodes ++ [length h]) /\
+  length h' = S (length h) /\
+  (forall b : nat,
+  (b < length h)%nat -> b <> C08_ListRep.tail_block lb nodes -> CHeap.hblock h' b = CHeap.hblock h b).
+Proof. exact C08_ListRep.addExpectedCall_spec_le. Qed.
+Print Assumptions C08_addExpectedCall_spec_le.
+
+Theorem C08_addPotentiallyMatchingExpectations_spec :
+  C08_ListRep.add_filtered_ok Gen_HeapC08L.src_mlist_addPotentiallyMatchingExpectations
+  (Gen_HeapC08L.LAsk
+  (String.String (Ascii.Ascii true true false false false true true false)
+  (String.String (Ascii.Ascii true false false false false true true false)
+  (String.String (Ascii.Ascii false true true true false true true false)
+  (String.String (Ascii.Ascii true false true true false false true false)
+  (String.String (Ascii.Ascii true false false false false true true false)
+  (String.String (Ascii.Ascii false false true false true true true false)
+  (String.String (Ascii.Ascii true true false false false true true false)
+  (String.String (Ascii.Ascii false false false true false true true false)
+  (String.String (Ascii.Ascii true false false false false false true false)
+  (String.String (Ascii.Ascii true true false false false true true false)
+  (String.String (Ascii.Ascii false false true false true true true false)
+  (String.String (Ascii.Ascii true false true false true true true false)
+  (String.String
+  (Ascii.Ascii true false false false false true true false)
+  (String.String
+  (Ascii.Ascii false false true true false true true false)
+  (String.String
+  (Ascii.Ascii true true false false false false true false)
+  (String.String
+  (Ascii.Ascii true false false false false true true false)
+  (String.String
+  (Ascii.Ascii false false true true false true true
+  false)
+  (String.String
+  (Ascii.Ascii false false true true false true true
+  false)
+  (String.String
+  (Ascii.Ascii true true false false true true
+  true false) String.EmptyString)))))))))))))))))))).
+Proof. exact C08_ListRep.addPotentiallyMatchingExpectations_spec. Qed.
+Print Assumptions C08_addPotentiallyMatchingExpectations_spec.
+
+Theorem C08_addExpectations_spec :
+  forall (fuel : nat) (h : CHeap.heap) (lb : nat) (ids : list Z) (nodes : list nat)
+  (olb : nat) (oids : list Z) (onodes : list nat) (evs : list Gen_HeapC08L.lev) (answers : list Z),
+  C08_ListRep.two_lists h lb ids nodes olb oids onodes ->
+  (length ids + length oids < fuel)%nat ->
+  exists h' : CHeap.heap,
+  Gen_HeapC08L.src_mlist_addExpectations fuel h evs answers (CHeap.HPtr lb 0) (CHeap.HPtr olb 0) =
+  CMem.FOk
+  (tt, h', evs ++ map (fun n : nat => Gen_HeapC08L.LNew (CHeap.HPtr n 0)) (seq (length h) (length oids)),
+  answers) /\
+  C08_ListRep.mlist_at h' lb (ids ++ oids) (nodes ++ seq (length h) (length oids)) /\
+  C08_ListRep.mlist_at h' olb oids onodes /\
+  length h' = (length h + length oids)%nat /\
+  (forall b : nat, (b < length h)%nat -> b <> lb -> ~ In b nodes -> CHeap.hblock h' b = CHeap.hblock h b).
+Proof. exact C08_ListRep.addExpectations_spec. Qed.
+Print Assumptions C08_addExpectations_spec.
+
+Theorem C08_addExpectations_self :
+  forall (fuel : nat) (h : CHeap.heap) (lb : nat) (ids : list Z) (nodes : list nat)
+  (evs : list Gen_HeapC08L.lev) (answers : list Z),
+  C08_ListRep.mlist_at h lb ids nodes ->
+  ids <> [] ->
+  Gen_HeapC08L.src_mlist_addExpectations fuel h evs answers (CHeap.HPtr lb 0) (CHeap.HPtr lb 0) = CMem.FNoFuel.
+Proof. exact C08_ListRep.addExpectations_self. Qed.
+Print Assumptions C08_addExpectations_self.
+
+Theorem C08_deleteAllExpectationsAndClearList_spec :
+  forall (fuel : nat) (h : CHeap.heap) (lb : nat) (ids : list Z) (nodes : list nat)
+  (evs : list Gen_HeapC08L.lev) (answers : list Z),
+  C08_ListRep.mlist0_at h lb ids nodes ->
+  (length ids < fuel)%nat ->
+  exists h' : CHeap.heap,
+  Gen_HeapC08L.src_mlist_deleteAllExpectationsAndClearList fuel h evs answers (CHeap.HPtr lb 0) =
+  CMem.FOk (tt, h', evs ++ C08_ListRep.del_events ids nodes, answers) /\
+  C08_ListRep.mlist_at h' lb [] [] /\
+  length h' = length h /\ (forall b : nat, b <> lb -> CHeap.hblock h' b = CHeap.hblock h b).
+Proof. exact C08_ListRep.deleteAllExpectationsAndClearList_spec. Qed.
+Print Assumptions C08_deleteAllExpectationsAndClearList_spec.
+
+Theorem C08_resetActualCallMatchingState_spec :
+  C08_ListRep.tell_ok Gen_HeapC08L.src_mlist_resetActualCallMatchingState
+  (Gen_HeapC08L.LTell
+  (String.String (Ascii.Ascii false true false false true true true false)
+  (String.String (Ascii.Ascii true false true false false true true false)
+  (String.String (Ascii.Ascii true true false false true true true false)
+  (String.String (Ascii.Ascii true false true false false true true false)
+  (String.String (Ascii.Ascii false false true false true true true false)
+  (String.String (Ascii.Ascii true false false false false false true false)
+  (String.String (Ascii.Ascii true true false false false true true false)
+  (String.String (Ascii.Ascii false false true false true true true false)
+  (String.String (Ascii.Ascii true false true false true true true false)
+  (String.String (Ascii.Ascii true false false false false true true false)
+  (String.String (Ascii.Ascii false false true true false true true false)
+  (String.String
+  (Ascii.Ascii true true false false false false true false)
+  (String.String
+  (Ascii.Ascii true false false false false true true false)
+  (String.String
+  (Ascii.Ascii false false true true false true true false)
+  (String.String
+  (Ascii.Ascii false false true true false true true false)
+  (String.String
+  (Ascii.Ascii true false true true false false true false)
+  (String.String
+  (Ascii.Ascii true false false false false true true
+  false)
+  (String.String
+  (Ascii.Ascii false false true false true true true
+  false)
+  (String.String
+  (Ascii.Ascii true true false false false true
+  true false)
+  (String.String
+  (Ascii.Ascii false false false true false
+  true true false)
+  (String.String
+  (Ascii.Ascii true false false true false
+  true true false)
+  (String.String
+  (Ascii.Ascii false true true true false
+  true true false)
+  (String.String
+  (Ascii.Ascii true true true false
+  false true true false)
+  (String.String
+  (Ascii.Ascii true true false
+  false true false true false)
+  (String.String
+  (Ascii.Ascii false false true
+  false true true true false)
+  (String.String
+  (Ascii.Ascii true false false
+  false false true true false)
+  (String.String
+  (Ascii.Ascii false false true
+  false true true true false)
+  (String.String
+  (Ascii.Ascii true false true
+  false false true true false)
+  String.EmptyString))))))))))))))))))))))))))))).
+Proof. exact C08_ListRep.resetActualCallMatchingState_spec. Qed.
+Print Assumptions C08_resetActualCallMatchingState_spec.
+
+Theorem C08_mlist_layout_is_the_source :
+  Gen_HeapC08L.off_MockExpectedCallsListNode_expectedCall_ = 0 /\
+  Gen_HeapC08L.off_MockExpectedCallsListNode_next_ = 1 /\
+  Gen_HeapC08L.cells_MockExpectedCallsListNode = 2 /\
+  Gen_HeapC08L.off_MockExpectedCallsList_head_ = 0 /\ Gen_HeapC08L.cells_MockExpectedCallsList = 1.
+Proof. exact C08_ListRep.mlist_layout_is_the_source. Qed.
+Print Assumptions C08_mlist_layout_is_the_source.
+
+Theorem C08_onlyKeepExpectationsRelatedTo_model :
+  forall (nm : Z) (f : name),
+  C08_ListTie.keeps_like
+  (fun (fuel : nat) (h : CHeap.heap) (evs : list Gen_HeapC08L.lev) (answers : list Z) (this_ : CHeap.hptr) =>
+  Gen_HeapC08L.src_mlist_onlyKeepExpectationsRelatedTo fuel h evs answers this_ nm)
+  (fun id a : Z =>
+  Gen_HeapC08L.LAskArg
+  (String.String (Ascii.Ascii false true false false true true true false)
+  (String.String (Ascii.Ascii true false true false false true true false)
+  (String.String (Ascii.Ascii false false true true false true true false)
+  (String.String (Ascii.Ascii true false false false false true true false)
+  (String.String (Ascii.Ascii false false true false true true true false)
+  (String.String (Ascii.Ascii true false true false false true true false)
+  (String.String (Ascii.Ascii true true false false true true true false)
+  (String.String (Ascii.Ascii false false true false true false true false)
+  (String.String (Ascii.Ascii true true true true false true true false)
+  String.EmptyString))))))))) id nm a) (relates f).
+Proof. exact C08_ListTie.onlyKeepExpectationsRelatedTo_model. Qed.
+Print Assumptions C08_onlyKeepExpectationsRelatedTo_model.
+
+Theorem C08_onlyKeepExpectationsWithInputParameter_model :
+  forall (pm : Z) (n : name) (v : pv),
+  C08_ListTie.keeps_like
+  (fun (fuel : nat) (h : CHeap.heap) (evs : list Gen_HeapC08L.lev) (answers : list Z) (this_ : CHeap.hptr) =>
+  Gen_HeapC08L.src_mlist_onlyKeepExpectationsWithInputParameter fuel h evs answers this_ pm)
+  (fun id a : Z =>
+  Gen_HeapC08L.LAskArg
+  (String.String (Ascii.Ascii false false false true false true true false)
+  (String.String (Ascii.Ascii true false false false false true true false)
+  (String.String (Ascii.Ascii true true false false true true true false)
+  (String.String (Ascii.Ascii true false false true false false true false)
+  (String.String (Ascii.Ascii false true true true false true true false)
+  (String.String (Ascii.Ascii false false false false true true true false)
+  (String.String (Ascii.Ascii true false true false true true true false)
+  (String.String (Ascii.Ascii false false true false true true true false)
+  (String.String (Ascii.Ascii false false false false true false true false)
+  (String.String (Ascii.Ascii true false false false false true true false)
+  (String.String (Ascii.Ascii false true false false true true true false)
+  (String.String
+  (Ascii.Ascii true false false false false true true false)
+  (String.String
+  (Ascii.Ascii true false true true false true true false)
+  (String.String
+  (Ascii.Ascii true false true false false true true false)
+  (String.String
+  (Ascii.Ascii false false true false true true true false)
+  (String.String
+  (Ascii.Ascii true false true false false true true false)
+  (String.String
+  (Ascii.Ascii false true false false true true true
+  false) String.EmptyString))))))))))))))))) id pm a)
+  (has_input n v).
+Proof. exact C08_ListTie.onlyKeepExpectationsWithInputParameter_model. Qed.
+Print Assumptions C08_onlyKeepExpectationsWithInputParameter_model.
+
+Theorem C08_onlyKeepExpectationsWithOutputParameter_model :
+  forall (pm : Z) (n : name),
+  C08_ListTie.keeps_like
+  (fun (fuel : nat) (h : CHeap.heap) (evs : list Gen_HeapC08L.lev) (answers : list Z) (this_ : CHeap.hptr) =>
+  Gen_HeapC08L.src_mlist_onlyKeepExpectationsWithOutputParameter fuel h evs answers this_ pm)
+  (fun id a : Z =>
+  Gen_HeapC08L.LAskArg
+  (String.String (Ascii.Ascii false false false true false true true false)
+  (String.String (Ascii.Ascii true false false false false true true false)
+  (String.String (Ascii.Ascii true true false false true true true false)
+  (String.String (Ascii.Ascii true true true true false false true false)
+  (String.String (Ascii.Ascii true false true false true true true false)
+  (String.String (Ascii.Ascii false false true false true true true false)
+  (String.String (Ascii.Ascii false false false false true true true false)
+  (String.String (Ascii.Ascii true false true false true true true false)
+  (String.String (Ascii.Ascii false false true false true true true false)
+  (String.String (Ascii.Ascii false false false false true false true false)
+  (String.String (Ascii.Ascii true false false false false true true false)
+  (String.String (Ascii.Ascii false true false false true true true false)
+  (String.String
+  (Ascii.Ascii true false false false false true true false)
+  (String.String
+  (Ascii.Ascii true false true true false true true false)
+  (String.String
+  (Ascii.Ascii true false true false false true true false)
+  (String.String
+  (Ascii.Ascii false false true false true true true false)
+  (String.String
+  (Ascii.Ascii true false true false false true true
+  false)
+  (String.String
+  (Ascii.Ascii false true false false true true true
+  false) String.EmptyString)))))))))))))))))) id
+  pm a) (has_output n).
+Proof. exact C08_ListTie.onlyKeepExpectationsWithOutputParameter_model. Qed.
+Print Assumptions C08_onlyKeepExpectationsWithOutputParameter_model.
+
+Theorem C08_onlyKeepExpectationsOnObject_model :
+  forall ob a : Z,
+  C08_ListTie.keeps_like
+  (fun (fuel : nat) (h : CHeap.heap) (evs : list Gen_HeapC08L.lev) (answers : list Z) (this_ : CHeap.hptr) =>
+  Gen_HeapC08L.src_mlist_onlyKeepExpectationsOnObject fuel h evs answers this_ ob)
+  (fun id x : Z =>
+  Gen_HeapC08L.LAskArg
+  (String.String (Ascii.Ascii false true false false true true true false)
+  (String.String (Ascii.Ascii true false true false false true true false)
+  (String.String (Ascii.Ascii false false true true false true true false)
+  (String.String (Ascii.Ascii true false false false false true true false)
+  (String.String (Ascii.Ascii false false true false true true true false)
+  (String.String (Ascii.Ascii true false true false false true true false)
+  (String.String (Ascii.Ascii true true false false true true true false)
+  (String.String (Ascii.Ascii false false true false true false true false)
+  (String.String (Ascii.Ascii true true true true false true true false)
+  (String.String (Ascii.Ascii true true true true false false true false)
+  (String.String (Ascii.Ascii false true false false false true true false)
+  (String.String (Ascii.Ascii false true false true false true true false)
+  (String.String
+  (Ascii.Ascii true false true false false true true false)
+  (String.String
+  (Ascii.Ascii true true false false false true true false)
+  (String.String
+  (Ascii.Ascii false false true false true true true false)
+  String.EmptyString))))))))))))))) id ob x)
+  (relates_obj a).
+Proof. exact C08_ListTie.onlyKeepExpectationsOnObject_model. Qed.
+Print Assumptions C08_onlyKeepExpectationsOnObject_model.
+
+Theorem C08_onlyKeepExpectationsWithInputParameterName_model :
+  forall (nm : Z) (n : name),
+  C08_ListTie.keeps_like
+  (fun (fuel : nat) (h : CHeap.heap) (evs : list Gen_HeapC08L.lev) (answers : list Z) (this_ : CHeap.hptr) =>
+  Gen_HeapC08L.src_mlist_onlyKeepExpectationsWithInputParameterName fuel h evs answers this_ nm)
+  (fun id a : Z =>
+  Gen_HeapC08L.LAskArg
+  (String.String (Ascii.Ascii false false false true false true true false)
+  (String.String (Ascii.Ascii true false false false false true true false)
+  (String.String (Ascii.Ascii true true false false true true true false)
+  (String.String (Ascii.Ascii true false false true false false true false)
+  (String.String (Ascii.Ascii false true true true false true true false)
+  (String.String (Ascii.Ascii false false false false true true true false)
+  (String.String (Ascii.Ascii true false true false true true true false)
+  (String.String (Ascii.Ascii false false true false true true true false)
+  (String.String (Ascii.Ascii false false false false true false true false)
+  (String.String (Ascii.Ascii true false false false false true true false)
+  (String.String (Ascii.Ascii false true false false true true true false)
+  (String.String
+  (Ascii.Ascii true false false false false true true false)
+  (String.String
+  (Ascii.Ascii true false true true false true true false)
+  (String.String
+  (Ascii.Ascii true false true false false true true false)
+  (String.String
+  (Ascii.Ascii false false true false true true true false)
+  (String.String
+  (Ascii.Ascii true false true false false true true false)
+  (String.String
+  (Ascii.Ascii false true false false true true true
+  false)
+  (String.String
+  (Ascii.Ascii true true true false true false true
+  false)
+  (String.String
+  (Ascii.Ascii true false false true false true
+  true false)
+  (String.String
+  (Ascii.Ascii false false true false true true
+  true false)
+  (String.String
+  (Ascii.Ascii false false false true false
+  true true false)
+  (String.String
+  (Ascii.Ascii false true true true false
+  false true false)
+  (String.String
+  (Ascii.Ascii true false false false
+  false true true false)
+  (String.String
+  (Ascii.Ascii true false true true
+  false true true false)
+  (String.String
+  (Ascii.Ascii true false true
+  false false true true false)
+  String.EmptyString)))))))))))))))))))))))))
+  id nm a) (has_input_name n).
+Proof. exact C08_ListTie.onlyKeepExpectationsWithInputParameterName_model. Qed.
+Print Assumptions C08_onlyKeepExpectationsWithInputParameterName_model.
+
+Theorem C08_onlyKeepExpectationsWithOutputParameterName_model :
+  forall (nm : Z) (n : name),
+  C08_ListTie.keeps_like
+  (fun (fuel : nat) (h : CHeap.heap) (evs : list Gen_HeapC08L.lev) (answers : list Z) (this_ : CHeap.hptr) =>
+  Gen_HeapC08L.src_mlist_onlyKeepExpectationsWithOutputParameterName fuel h evs answers this_ nm)
+  (fun id a : Z =>
+  Gen_HeapC08L.LAskArg
+  (String.String (Ascii.Ascii false false false true false true true false)
+  (String.String (Ascii.Ascii true false false false false true true false)
+  (String.String (Ascii.Ascii true true false false true true true false)
+  (String.String (Ascii.Ascii true true true true false false true false)
+  (String.String (Ascii.Ascii true false true false true true true false)
+  (String.String (Ascii.Ascii false false true false true true true false)
+  (String.String (Ascii.Ascii false false false false true true true false)
+  (String.String (Ascii.Ascii true false true false true true true false)
+  (String.String (Ascii.Ascii false false true false true true true false)
+  (String.String (Ascii.Ascii false false false false true false true false)
+  (String.String (Ascii.Ascii true false false false false true true false)
+  (String.String (Ascii.Ascii false true false false true true true false)
+  (String.String
+  (Ascii.Ascii true false false false false true true false)
+  (String.String
+  (Ascii.Ascii true false true true false true true false)
+  (String.String
+  (Ascii.Ascii true false true false false true true false)
+  (String.String
+  (Ascii.Ascii false false true false true true true false)
+  (String.String
+  (Ascii.Ascii true false true false false true true
+  false)
+  (String.String
+  (Ascii.Ascii false true false false true true true
+  false)
+  (String.String
+  (Ascii.Ascii true true true false true false
+  true false)
+  (String.String
+  (Ascii.Ascii true false false true false true
+  true false)
+  (String.String
+  (Ascii.Ascii false false true false true
+  true true false)
+  (String.String
+  (Ascii.Ascii false false false true
+  false true true false)
+  (String.String
+  (Ascii.Ascii false true true true
+  false false true false)
+  (String.String
+  (Ascii.Ascii true false false
+  false false true true false)
+  (String.String
+  (Ascii.Ascii true false true
+  true false true true false)
+  (String.String
+  (Ascii.Ascii true false true
+  false false true true false)
+  String.EmptyString))))))))))))))))))))))))))
+  id nm a) (has_output_name n).
+Proof. exact C08_ListTie.onlyKeepExpectationsWithOutputParameterName_model. Qed.
+Print Assumptions C08_onlyKeepExpectationsWithOutputParameterName_model.
+
+Theorem C08_onlyKeepOutOfOrderExpectations_model :
+  C08_ListTie.keeps_like Gen_HeapC08L.src_mlist_onlyKeepOutOfOrderExpectations
+  (Gen_HeapC08L.LAsk
+  (String.String (Ascii.Ascii true false false true false true true false)
+  (String.String (Ascii.Ascii true true false false true true true false)
+  (String.String (Ascii.Ascii true true true true false false true false)
+  (String.String (Ascii.Ascii true false true false true true true false)
+  (String.String (Ascii.Ascii false false true false true true true false)
+  (String.String (Ascii.Ascii true true true true false false true false)
+  (String.String (Ascii.Ascii false true true false false true true false)
+  (String.String (Ascii.Ascii true true true true false false true false)
+  (String.String (Ascii.Ascii false true false false true true true false)
+  (String.String (Ascii.Ascii false false true false false true true false)
+  (String.String (Ascii.Ascii true false true false false true true false)
+  (String.String (Ascii.Ascii false true false false true true true false)
+  String.EmptyString))))))))))))) e_ooo.
+Proof. exact C08_ListTie.onlyKeepOutOfOrderExpectations_model. Qed.
+Print Assumptions C08_onlyKeepOutOfOrderExpectations_model.
+
+Theorem C08_onlyKeepUnmatchingExpectations_model :
+  forall (fuel : nat) (h : CHeap.heap) (lb : nat) (es : list expn) (idof : nat -> Z)
+  (nodes : list nat) (evs : list Gen_HeapC08L.lev) (rest : list Z),
+  C08_ListTie.cand_rep h lb es idof nodes ->
+  (length (filter e_pot es) < fuel)%nat ->
+  exists h' : CHeap.heap,
+  Gen_HeapC08L.src_mlist_onlyKeepUnmatchingExpectations fuel h evs
+  (C08_ListTie.model_answers_of e_pot is_matching_fin es ++ rest) (CHeap.HPtr lb 0) =
+  CMem.FOk
+  (tt, h',
+  evs ++
+  C08_ListRep.unm_events (map idof (C08_ListTie.pos_from e_pot 0 es))
+  (C08_ListTie.model_answers_of e_pot is_matching_fin es ++ rest) ++
+  map (fun b : nat => Gen_HeapC08L.LDelete (CHeap.HPtr b 0))
+  (C08_ListRep.drop_by nodes (map CSem.z2b (C08_ListTie.model_answers_of e_pot is_matching_fin es))),
+  rest) /\
+  C08_ListTie.cand_rep h' lb (only_keep_unmatching es) idof
+  (C08_ListRep.keep_by nodes (map CSem.z2b (C08_ListTie.model_answers_of e_pot is_matching_fin es))) /\
+  length h' = length h /\
+  (forall b : nat, b <> lb -> ~ In b nodes -> CHeap.hblock h' b = CHeap.hblock h b) /\
+  filter C08_ListRep.is_tell
+  (C08_ListRep.unm_events (map idof (C08_ListTie.pos_from e_pot 0 es))
+  (C08_ListTie.model_answers_of e_pot is_matching_fin es ++ rest)) =
+  map
+  (fun k : nat =>
+  Gen_HeapC08L.LTell
+  (String.String (Ascii.Ascii false true false false true true true false)
+  (String.String (Ascii.Ascii true false true false false true true false)
+  (String.String (Ascii.Ascii true true false false true true true false)
+  (String.String (Ascii.Ascii true false true false false true true false)
+  (String.String (Ascii.Ascii false false true false true true true false)
+  (String.String (Ascii.Ascii true false false false false false true false)
+  (String.String (Ascii.Ascii true true false false false true true false)
+  (String.String (Ascii.Ascii false false true false true true true false)
+  (String.String (Ascii.Ascii true false true false true true true false)
+  (String.String (Ascii.Ascii true false false false false true true false)
+  (String.String (Ascii.Ascii false false true true false true true false)
+  (String.String
+  (Ascii.Ascii true true false false false false true false)
+  (String.String
+  (Ascii.Ascii true false false false false true true false)
+  (String.String
+  (Ascii.Ascii false false true true false true true false)
+  (String.String
+  (Ascii.Ascii false false true true false true true false)
+  (String.String
+  (Ascii.Ascii true false true true false false true
+  false)
+  (String.String
+  (Ascii.Ascii true false false false false true true
+  false)
+  (String.String
+  (Ascii.Ascii false false true false true true
+  true false)
+  (String.String
+  (Ascii.Ascii true true false false false true
+  true false)
+  (String.String
+  (Ascii.Ascii false false false true false
+  true true false)
+  (String.String
+  (Ascii.Ascii true false false true false
+  true true false)
+  (String.String
+  (Ascii.Ascii false true true true
+  false true true false)
+  (String.String
+  (Ascii.Ascii true true true false
+  false true true false)
+  (String.String
+  (Ascii.Ascii true true false
+  false true false true false)
+  (String.String
+  (Ascii.Ascii false false true
+  false true true true false)
+  (String.String
+  (Ascii.Ascii true false false
+  false false true true false)
+  (String.String
+  (Ascii.Ascii false false true
+  false true true true false)
+  (String.String
+  (Ascii.Ascii true false true
+  false false true true false)
+  String.EmptyString))))))))))))))))))))))))))))
+  (idof k)) (C08_ListTie.pos_from (fun e : expn => e_pot e && is_matching_fin e) 0 es).
+Proof. exact C08_ListTie.onlyKeepUnmatchingExpectations_model. Qed.
+Print Assumptions C08_onlyKeepUnmatchingExpectations_model.
+
+Theorem C08_isEmpty_model :
+  forall (fuel : nat) (h : CHeap.heap) (lb : nat) (es : list expn) (idof : nat -> Z)
+  (nodes : list nat) (evs : list Gen_HeapC08L.lev) (answers : list Z),
+  C08_ListTie.cand_rep h lb es idof nodes ->
+  Gen_HeapC08L.src_mlist_isEmpty fuel h evs answers (CHeap.HPtr lb 0) =
+  CMem.FOk (CSem.b2z (pot_empty es), h, evs, answers).
+Proof. exact C08_ListTie.isEmpty_model. Qed.
+Print Assumptions C08_isEmpty_model.
+
+Theorem C08_getFirstMatchingExpectation_model :
+  forall (fuel : nat) (h : CHeap.heap) (lb : nat) (es : list expn) (idof : nat -> Z)
+  (nodes : list nat) (evs : list Gen_HeapC08L.lev) (rest : list Z),
+  C08_ListTie.cand_rep h lb es idof nodes ->
+  (length (filter e_pot es) < fuel)%nat ->
+  let asks :=
+  C08_ListRep.asked C08_ListRep.yes (map idof (C08_ListTie.pos_from e_pot 0 es))
+  (C08_ListTie.model_answers_of e_pot is_matching es) in
+  Gen_HeapC08L.src_mlist_getFirstMatchingExpectation fuel h evs
+  (C08_ListTie.model_answers_of e_pot is_matching es ++ rest) (CHeap.HPtr lb 0) =
+  CMem.FOk
+  (match C08_ListTie.find_pos (fun e : expn => e_pot e && is_matching e) 0 es with
+  | Some j => idof j
+  | None => 0
+  end, h,
+  evs ++
+  C08_ListRep.zipw
+  (Gen_HeapC08L.LAsk
+  (String.String (Ascii.Ascii true false false true false true true false)
+  (String.String (Ascii.Ascii true true false false true true true false)
+  (String.String (Ascii.Ascii true false true true false false true false)
+  (String.String (Ascii.Ascii true false false false false true true false)
+  (String.String (Ascii.Ascii false false true false true true true false)
+  (String.String (Ascii.Ascii true true false false false true true false)
+  (String.String (Ascii.Ascii false false false true false true true false)
+  (String.String (Ascii.Ascii true false false true false true true false)
+  (String.String (Ascii.Ascii false true true true false true true false)
+  (String.String (Ascii.Ascii true true true false false true true false)
+  (String.String
+  (Ascii.Ascii true false false false false false true false)
+  (String.String
+  (Ascii.Ascii true true false false false true true false)
+  (String.String
+  (Ascii.Ascii false false true false true true true false)
+  (String.String
+  (Ascii.Ascii true false true false true true true false)
+  (String.String
+  (Ascii.Ascii true false false false false true true false)
+  (String.String
+  (Ascii.Ascii false false true true false true true
+  false)
+  (String.String
+  (Ascii.Ascii true true false false false false true
+  false)
+  (String.String
+  (Ascii.Ascii true false false false false true
+  true false)
+  (String.String
+  (Ascii.Ascii false false true true false true
+  true false)
+  (String.String
+  (Ascii.Ascii false false true true false
+  true true false) String.EmptyString)))))))))))))))))))))
+  (map idof (C08_ListTie.pos_from e_pot 0 es)) asks,
+  skipn (length asks) (C08_ListTie.model_answers_of e_pot is_matching es ++ rest)) /\
+  first_pot is_matching es =
+  match C08_ListTie.find_pos (fun e : expn => e_pot e && is_matching e) 0 es with
+  | Some j => nth_error es j
+  | None => None
+  end.
+Proof. exact C08_ListTie.getFirstMatchingExpectation_model. Qed.
+Print Assumptions C08_getFirstMatchingExpectation_model.
+
+Theorem C08_removeFirstFinalizedMatchingExpectation_model :
+  C08_ListTie.removes_like Gen_HeapC08L.src_mlist_removeFirstFinalizedMatchingExpectation
+  (String.String (Ascii.Ascii true false false true false true true false)
+  (String.String (Ascii.Ascii true true false false true true true false)
+  (String.String (Ascii.Ascii true false true true false false true false)
+  (String.String (Ascii.Ascii true false false false false true true false)
+  (String.String (Ascii.Ascii false false true false true true true false)
+  (String.String (Ascii.Ascii true true false false false true true false)
+  (String.String (Ascii.Ascii false false false true false true true false)
+  (String.String (Ascii.Ascii true false false true false true true false)
+  (String.String (Ascii.Ascii false true true true false true true false)
+  (String.String (Ascii.Ascii true true true false false true true false)
+  (String.String (Ascii.Ascii true false false false false false true false)
+  (String.String (Ascii.Ascii true true false false false true true false)
+  (String.String (Ascii.Ascii false false true false true true true false)
+  (String.String
+  (Ascii.Ascii true false true false true true true false)
+  (String.String
+  (Ascii.Ascii true false false false false true true false)
+  (String.String
+  (Ascii.Ascii false false true true false true true false)
+  (String.String
+  (Ascii.Ascii true true false false false false true false)
+  (String.String
+  (Ascii.Ascii true false false false false true true
+  false)
+  (String.String
+  (Ascii.Ascii false false true true false true true
+  false)
+  (String.String
+  (Ascii.Ascii false false true true false true
+  true false)
+  (String.String
+  (Ascii.Ascii true false false false false
+  false true false)
+  (String.String
+  (Ascii.Ascii false true true true false
+  true true false)
+  (String.String
+  (Ascii.Ascii false false true false
+  false true true false)
+  (String.String
+  (Ascii.Ascii false true true false
+  false false true false)
+  (String.String
+  (Ascii.Ascii true false false
+  true false true true false)
+  (String.String
+  (Ascii.Ascii false true true
+  true false true true false)
+  (String.String
+  (Ascii.Ascii true false false
+  false false true true false)
+  (String.String
+  (Ascii.Ascii false false true
+  true false true true false)
+  (String.String
+  (Ascii.Ascii true false false
+  true false true true false)
+  (String.String
+  (Ascii.Ascii false true false
+  true true true true false)
+  (String.String
+  (Ascii.Ascii true false true
+  false false true true false)
+  (String.String
+  (Ascii.Ascii false false true
+  false false true true false)
+  String.EmptyString))))))))))))))))))))))))))))))))
+  is_matching_fin.
+Proof. exact C08_ListTie.removeFirstFinalizedMatchingExpectation_model. Qed.
+Print Assumptions C08_removeFirstFinalizedMatchingExpectation_model.
+
+Theorem C08_removeFirstMatchingExpectation_model :
+  C08_ListTie.removes_like Gen_HeapC08L.src_mlist_removeFirstMatchingExpectation
+  (String.String (Ascii.Ascii true false false true false true true false)
+  (String.String (Ascii.Ascii true true false false true true true false)
+  (String.String (Ascii.Ascii true false true true false false true false)
+  (String.String (Ascii.Ascii true false false false false true true false)
+  (String.String (Ascii.Ascii false false true false true true true false)
+  (String.String (Ascii.Ascii true true false false false true true false)
+  (String.String (Ascii.Ascii false false false true false true true false)
+  (String.String (Ascii.Ascii true false false true false true true false)
+  (String.String (Ascii.Ascii false true true true false true true false)
+  (String.String (Ascii.Ascii true true true false false true true false)
+  (String.String (Ascii.Ascii true false false false false false true false)
+  (String.String (Ascii.Ascii true true false false false true true false)
+  (String.String (Ascii.Ascii false false true false true true true false)
+  (String.String
+  (Ascii.Ascii true false true false true true true false)
+  (String.String
+  (Ascii.Ascii true false false false false true true false)
+  (String.String
+  (Ascii.Ascii false false true true false true true false)
+  (String.String
+  (Ascii.Ascii true true false false false false true false)
+  (String.String
+  (Ascii.Ascii true false false false false true true
+  false)
+  (String.String
+  (Ascii.Ascii false false true true false true true
+  false)
+  (String.String
+  (Ascii.Ascii false false true true false true
+  true false) String.EmptyString))))))))))))))))))))
+  is_matching.
+Proof. exact C08_ListTie.removeFirstMatchingExpectation_model. Qed.
+Print Assumptions C08_removeFirstMatchingExpectation_model.
+
+Theorem C08_amountOfActualCallsFulfilledFor_model :
+  forall (fuel : nat) (h : CHeap.heap) (lb : nat) (es : list expn) (idof : nat -> Z)
+  (nodes : list nat) (evs : list Gen_HeapC08L.lev) (rest : list Z) (nm : Z) (f : name),
+  C08_ListTie.master_rep h lb es idof nodes ->
+  (length es < fuel)%nat ->
+  Gen_HeapC08L.src_mlist_amountOfActualCallsFulfilledFor fuel h evs (C08_ListTie.ful_answers f es ++ rest)
+  (CHeap.HPtr lb 0) nm =
+  CMem.FOk (Z.of_N (fulfilled_for f es) mod 2 ^ 32, h, evs ++ C08_ListTie.ful_events nm idof f 0 es, rest).
+Proof. exact C08_ListTie.amountOfActualCallsFulfilledFor_model. Qed.
+Print Assumptions C08_amountOfActualCallsFulfilledFor_model.
+
+Theorem C08_addPotentiallyMatchingExpectations_model :
+  forall (fx : bool) (fuel : nat) (h : CHeap.heap) (lb mlb : nat) (es : list expn) (idof : nat -> Z)
+  (mnodes : list nat) (evs : list Gen_HeapC08L.lev) (rest : list Z),
+  C08_ListRep.two_lists h lb [] [] mlb (map idof (C08_ListTie.pos_from (fun _ : expn => true) 0 es)) mnodes ->
+  C08_ListTie.idof_ok idof (length es) ->
+  (length es < fuel)%nat ->
+  let ans := C08_ListTie.model_answers_of (fun _ : expn => true) can_match es in
+  exists h' : CHeap.heap,
+  Gen_HeapC08L.src_mlist_addPotentiallyMatchingExpectations fuel h evs (ans ++ rest)
+  (CHeap.HPtr lb 0) (CHeap.HPtr mlb 0) =
+  CMem.FOk
+  (tt, h',
+  evs ++
+  C08_ListRep.add_events
+  (Gen_HeapC08L.LAsk
+  (String.String (Ascii.Ascii true true false false false true true false)
+  (String.String (Ascii.Ascii true false false false false true true false)
+  (String.String (Ascii.Ascii false true true true false true true false)
+  (String.String (Ascii.Ascii true false true true false false true false)
+  (String.String (Ascii.Ascii true false false false false true true false)
+  (String.String (Ascii.Ascii false false true false true true true false)
+  (String.String (Ascii.Ascii true true false false false true true false)
+  (String.String (Ascii.Ascii false false false true false true true false)
+  (String.String (Ascii.Ascii true false false false false false true false)
+  (String.String (Ascii.Ascii true true false false false true true false)
+  (String.String
+  (Ascii.Ascii false false true false true true true false)
+  (String.String
+  (Ascii.Ascii true false true false true true true false)
+  (String.String
+  (Ascii.Ascii true false false false false true true false)
+  (String.String
+  (Ascii.Ascii false false true true false true true false)
+  (String.String
+  (Ascii.Ascii true true false false false false true
+  false)
+  (String.String
+  (Ascii.Ascii true false false false false true true
+  false)
+  (String.String
+  (Ascii.Ascii false false true true false true
+  true false)
+  (String.String
+  (Ascii.Ascii false false true true false true
+  true false)
+  (String.String
+  (Ascii.Ascii true true false false true
+  true true false) String.EmptyString))))))))))))))))))))
+  (length h) (map idof (seq 0 (length es))) ans, rest) /\
+  C08_ListTie.cand_rep h' lb (create fx es) idof (seq (length h) (length (filter can_match es))) /\
+  C08_ListTie.master_rep h' mlb (create fx es) idof mnodes /\
+  length h' = (length h + length (filter can_match es))%nat /\
+  (forall b : nat, (b < length h)%nat -> b <> lb -> CHeap.hblock h' b = CHeap.hblock h b).
+Proof. exact C08_ListTie.addPotentiallyMatchingExpectations_model. Qed.
+Print Assumptions C08_addPotentiallyMatchingExpectations_model.
+
+Theorem C08_resetActualCallMatchingState_model :
+  C08_ListTie.tells_like Gen_HeapC08L.src_mlist_resetActualCallMatchingState
+  (Gen_HeapC08L.LTell
+  (String.String (Ascii.Ascii false true false false true true true false)
+  (String.String (Ascii.Ascii true false true false false true true false)
+  (String.String (Ascii.Ascii true true false false true true true false)
+  (String.String (Ascii.Ascii true false true false false true true false)
+  (String.String (Ascii.Ascii false false true false true true true false)
+  (String.String (Ascii.Ascii true false false false false false true false)
+  (String.String (Ascii.Ascii true true false false false true true false)
+  (String.String (Ascii.Ascii false false true false true true true false)
+  (String.String (Ascii.Ascii true false true false true true true false)
+  (String.String (Ascii.Ascii true false false false false true true false)
+  (String.String (Ascii.Ascii false false true true false true true false)
+  (String.String
+  (Ascii.Ascii true true false false false false true false)
+  (String.String
+  (Ascii.Ascii true false false false false true true false)
+  (String.String
+  (Ascii.Ascii false false true true false true true false)
+  (String.String
+  (Ascii.Ascii false false true true false true true false)
+  (String.String
+  (Ascii.Ascii true false true true false false true false)
+  (String.String
+  (Ascii.Ascii true false false false false true true
+  false)
+  (String.String
+  (Ascii.Ascii false false true false true true true
+  false)
+  (String.String
+  (Ascii.Ascii true true false false false true
+  true false)
+  (String.String
+  (Ascii.Ascii false false false true false
+  true true false)
+  (String.String
+  (Ascii.Ascii true false false true false
+  true true false)
+  (String.String
+  (Ascii.Ascii false true true true false
+  true true false)
+  (String.String
+  (Ascii.Ascii true true true false
+  false true true false)
+  (String.String
+  (Ascii.Ascii true true false
+  false true false true false)
+  (String.String
+  (Ascii.Ascii false false true
+  false true true true false)
+  (String.String
+  (Ascii.Ascii true false false
+  false false true true false)
+  (String.String
+  (Ascii.Ascii false false true
+  false true true true false)
+  (String.String
+  (Ascii.Ascii true false true
+  false false true true false)
+  String.EmptyString))))))))))))))))))))))))))))).
+Proof. exact C08_ListTie.resetActualCallMatchingState_model. Qed.
+Print Assumptions C08_resetActualCallMatchingState_model.
+
+Theorem C08_wasPassedToObject_model :
+  C08_ListTie.tells_like Gen_HeapC08L.src_mlist_wasPassedToObject
+  (Gen_HeapC08L.LTell
+  (String.String (Ascii.Ascii true true true false true true true false)
+  (String.String (Ascii.Ascii true false false false false true true false)
+  (String.String (Ascii.Ascii true true false false true true true false)
+  (String.String (Ascii.Ascii false false false false true false true false)
+  (String.String (Ascii.Ascii true false false false false true true false)
+  (String.String (Ascii.Ascii true true false false true true true false)
+  (String.String (Ascii.Ascii true true false false true true true false)
+  (String.String (Ascii.Ascii true false true false false true true false)
+  (String.String (Ascii.Ascii false false true false false true true false)
+  (String.String (Ascii.Ascii false false true false true false true false)
+  (String.String (Ascii.Ascii true true true true false true true false)
+  (String.String (Ascii.Ascii true true true true false false true false)
+  (String.String
+  (Ascii.Ascii false true false false false true true false)
+  (String.String
+  (Ascii.Ascii false true false true false true true false)
+  (String.String
+  (Ascii.Ascii true false true false false true true false)
+  (String.String
+  (Ascii.Ascii true true false false false true true false)
+  (String.String
+  (Ascii.Ascii false false true false true true true
+  false) String.EmptyString)))))))))))))))))).
+Proof. exact C08_ListTie.wasPassedToObject_model. Qed.
+Print Assumptions C08_wasPassedToObject_model.
+
+Theorem C08_parameterWasPassed_model :
+  forall nm : Z,
+  C08_ListTie.tells_like
+  (fun (fuel : nat) (h : CHeap.heap) (evs : list Gen_HeapC08L.lev) (answers : list Z) (this_ : CHeap.hptr) =>
+  Gen_HeapC08L.src_mlist_parameterWasPassed fuel h evs answers this_ nm)
+  (fun id : Z =>
+  Gen_HeapC08L.LTellArg
+  (String.String (Ascii.Ascii true false false true false true true false)
+  (String.String (Ascii.Ascii false true true true false true true false)
+  (String.String (Ascii.Ascii false false false false true true true false)
+  (String.String (Ascii.Ascii true false true false true true true false)
+  (String.String (Ascii.Ascii false false true false true true true false)
+  (String.String (Ascii.Ascii false false false false true false true false)
+  (String.String (Ascii.Ascii true false false false false true true false)
+  (String.String (Ascii.Ascii false true false false true true true false)
+  (String.String (Ascii.Ascii true false false false false true true false)
+  (String.String (Ascii.Ascii true false true true false true true false)
+  (String.String (Ascii.Ascii true false true false false true true false)
+  (String.String (Ascii.Ascii false false true false true true true false)
+  (String.String
+  (Ascii.Ascii true false true false false true true false)
+  (String.String
+  (Ascii.Ascii false true false false true true true false)
+  (String.String
+  (Ascii.Ascii true true true false true false true false)
+  (String.String
+  (Ascii.Ascii true false false false false true true false)
+  (String.String
+  (Ascii.Ascii true true false false true true true
+  false)
+  (String.String
+  (Ascii.Ascii false false false false true false
+  true false)
+  (String.String
+  (Ascii.Ascii true false false false false true
+  true false)
+  (String.String
+  (Ascii.Ascii true true false false true true
+  true false)
+  (String.String
+  (Ascii.Ascii true true false false true
+  true true false)
+  (String.String
+  (Ascii.Ascii true false true false
+  false true true false)
+  (String.String
+  (Ascii.Ascii false false true false
+  false true true false)
+  String.EmptyString)))))))))))))))))))))))
+  id nm).
+Proof. exact C08_ListTie.parameterWasPassed_model. Qed.
+Print Assumptions C08_parameterWasPassed_model.
+
+Theorem C08_outputParameterWasPassed_model :
+  forall nm : Z,
+  C08_ListTie.tells_like
+  (fun (fuel : nat) (h : CHeap.heap) (evs : list Gen_HeapC08L.lev) (answers : list Z) (this_ : CHeap.hptr) =>
+  Gen_HeapC08L.src_mlist_outputParameterWasPassed fuel h evs answers this_ nm)
+  (fun id : Z =>
+  Gen_HeapC08L.LTellArg
+  (String.String (Ascii.Ascii true true true true false true true false)
+  (String.String (Ascii.Ascii true false true false true true true false)
+  (String.String (Ascii.Ascii false false true false true true true false)
+  (String.String (Ascii.Ascii false false false false true true true false)
+  (String.String (Ascii.Ascii true false true false true true true false)
+  (String.String (Ascii.Ascii false false true false true true true false)
+  (String.String (Ascii.Ascii false false false false true false true false)
+  (String.String (Ascii.Ascii true false false false false true true false)
+  (String.String (Ascii.Ascii false true false false true true true false)
+  (String.String (Ascii.Ascii true false false false false true true false)
+  (String.String (Ascii.Ascii true false true true false true true false)
+  (String.String (Ascii.Ascii true false true false false true true false)
+  (String.String
+  (Ascii.Ascii false false true false true true true false)
+  (String.String
+  (Ascii.Ascii true false true false false true true false)
+  (String.String
+  (Ascii.Ascii false true false false true true true false)
+  (String.String
+  (Ascii.Ascii true true true false true false true false)
+  (String.String
+  (Ascii.Ascii true false false false false true true
+  false)
+  (String.String
+  (Ascii.Ascii true true false false true true true
+  false)
+  (String.String
+  (Ascii.Ascii false false false false true false
+  true false)
+  (String.String
+  (Ascii.Ascii true false false false false
+  true true false)
+  (String.String
+  (Ascii.Ascii true true false false true
+  true true false)
+  (String.String
+  (Ascii.Ascii true true false false true
+  true true false)
+  (String.String
+  (Ascii.Ascii true false true false
+  false true true false)
+  (String.String
+  (Ascii.Ascii false false true
+  false false true true false)
+  String.EmptyString))))))))))))))))))))))))
+  id nm).
+Proof. exact C08_ListTie.outputParameterWasPassed_model. Qed.
+Print Assumptions C08_outputParameterWasPassed_model.
+
+Theorem C08_hasFinalizedMatchingExpectations_model :
+  C08_ListTie.has_like Gen_HeapC08L.src_mlist_hasFinalizedMatchingExpectations
+  (Gen_HeapC08L.LAsk
+  (String.String (Ascii.Ascii true false false true false true true false)
+  (String.String (Ascii.Ascii true true false false true true true false)
+  (String.String (Ascii.Ascii true false true true false false true false)
+  (String.String (Ascii.Ascii true false false false false true true false)
+  (String.String (Ascii.Ascii false false true false true true true false)
+  (String.String (Ascii.Ascii true true false false false true true false)
+  (String.String (Ascii.Ascii false false false true false true true false)
+  (String.String (Ascii.Ascii true false false true false true true false)
+  (String.String (Ascii.Ascii false true true true false true true false)
+  (String.String (Ascii.Ascii true true true false false true true false)
+  (String.String (Ascii.Ascii true false false false false false true false)
+  (String.String (Ascii.Ascii true true false false false true true false)
+  (String.String
+  (Ascii.Ascii false false true false true true true false)
+  (String.String
+  (Ascii.Ascii true false true false true true true false)
+  (String.String
+  (Ascii.Ascii true false false false false true true false)
+  (String.String
+  (Ascii.Ascii false false true true false true true false)
+  (String.String
+  (Ascii.Ascii true true false false false false true
+  false)
+  (String.String
+  (Ascii.Ascii true false false false false true true
+  false)
+  (String.String
+  (Ascii.Ascii false false true true false true
+  true false)
+  (String.String
+  (Ascii.Ascii false false true true false true
+  true false)
+  (String.String
+  (Ascii.Ascii true false false false false
+  false true false)
+  (String.String
+  (Ascii.Ascii false true true true false
+  true true false)
+  (String.String
+  (Ascii.Ascii false false true false
+  false true true false)
+  (String.String
+  (Ascii.Ascii false true true
+  false false false true false)
+  (String.String
+  (Ascii.Ascii true false false
+  true false true true false)
+  (String.String
+  (Ascii.Ascii false true true
+  true false true true false)
+  (String.String
+  (Ascii.Ascii true false false
+  false false true true false)
+  (String.String
+  (Ascii.Ascii false false true
+  true false true true false)
+  (String.String
+  (Ascii.Ascii true false false
+  true false true true false)
+  (String.String
+  (Ascii.Ascii false true false
+  true true true true false)
+  (String.String
+  (Ascii.Ascii true false true
+  false false true true false)
+  (String.String
+  (Ascii.Ascii false false true
+  false false true true false)
+  String.EmptyString)))))))))))))))))))))))))))))))))
+  C08_ListRep.yes e_pot is_matching_fin (fun e : expn => CSem.b2z (is_matching_fin e)).
+Proof. exact C08_ListTie.hasFinalizedMatchingExpectations_model. Qed.
+Print Assumptions C08_hasFinalizedMatchingExpectations_model.
+
+Theorem C08_hasUnmatchingExpectationsBecauseOfMissingParameters_model :
+  C08_ListTie.has_like Gen_HeapC08L.src_mlist_hasUnmatchingExpectationsBecauseOfMissingParameters
+  (Gen_HeapC08L.LAsk
+  (String.String (Ascii.Ascii true false false false false true true false)
+  (String.String (Ascii.Ascii false true false false true true true false)
+  (String.String (Ascii.Ascii true false true false false true true false)
+  (String.String (Ascii.Ascii false false false false true false true false)
+  (String.String (Ascii.Ascii true false false false false true true false)
+  (String.String (Ascii.Ascii false true false false true true true false)
+  (String.String (Ascii.Ascii true false false false false true true false)
+  (String.String (Ascii.Ascii true false true true false true true false)
+  (String.String (Ascii.Ascii true false true false false true true false)
+  (String.String (Ascii.Ascii false false true false true true true false)
+  (String.String (Ascii.Ascii true false true false false true true false)
+  (String.String (Ascii.Ascii false true false false true true true false)
+  (String.String
+  (Ascii.Ascii true true false false true true true false)
+  (String.String
+  (Ascii.Ascii true false true true false false true false)
+  (String.String
+  (Ascii.Ascii true false false false false true true false)
+  (String.String
+  (Ascii.Ascii false false true false true true true false)
+  (String.String
+  (Ascii.Ascii true true false false false true true
+  false)
+  (String.String
+  (Ascii.Ascii false false false true false true true
+  false)
+  (String.String
+  (Ascii.Ascii true false false true false true
+  true false)
+  (String.String
+  (Ascii.Ascii false true true true false true
+  true false)
+  (String.String
+  (Ascii.Ascii true true true false false
+  true true false)
+  (String.String
+  (Ascii.Ascii true false false false
+  false false true false)
+  (String.String
+  (Ascii.Ascii true true false false
+  false true true false)
+  (String.String
+  (Ascii.Ascii false false true
+  false true true true false)
+  (String.String
+  (Ascii.Ascii true false true
+  false true true true false)
+  (String.String
+  (Ascii.Ascii true false false
+  false false true true false)
+  (String.String
+  (Ascii.Ascii false false true
+  true false true true false)
+  (String.String
+  (Ascii.Ascii true true false
+  false false false true false)
+  (String.String
+  (Ascii.Ascii true false false
+  false false true true false)
+  (String.String
+  (Ascii.Ascii false false true
+  true false true true false)
+  (String.String
+  (Ascii.Ascii false false true
+  true false true true false)
+  String.EmptyString))))))))))))))))))))))))))))))))
+  C08_ListRep.no e_pot (fun e : expn => negb (params_matching e))
+  (fun e : expn => CSem.b2z (params_matching e)).
+Proof. exact C08_ListTie.hasUnmatchingExpectationsBecauseOfMissingParameters_model. Qed.
+Print Assumptions C08_hasUnmatchingExpectationsBecauseOfMissingParameters_model.
+
+Theorem C08_hasUnfulfilledExpectations_model :
+  C08_ListTie.has_like Gen_HeapC08L.src_mlist_hasUnfulfilledExpectations
+  (Gen_HeapC08L.LAsk
+  (String.String (Ascii.Ascii true false false true false true true false)
+  (String.String (Ascii.Ascii true true false false true true true false)
+  (String.String (Ascii.Ascii false true true false false false true false)
+  (String.String (Ascii.Ascii true false true false true true true false)
+  (String.String (Ascii.Ascii false false true true false true true false)
+  (String.String (Ascii.Ascii false true true false false true true false)
+  (String.String (Ascii.Ascii true false false true false true true false)
+  (String.String (Ascii.Ascii false false true true false true true false)
+  (String.String (Ascii.Ascii false false true true false true true false)
+  (String.String (Ascii.Ascii true false true false false true true false)
+  (String.String (Ascii.Ascii false false true false false true true false)
+  String.EmptyString)))))))))))) C08_ListRep.no
+  (fun _ : expn => true) (fun e : expn => negb (is_fulfilled e)) (fun e : expn => CSem.b2z (is_fulfilled e)).
+Proof. exact C08_ListTie.hasUnfulfilledExpectations_model. Qed.
+Print Assumptions C08_hasUnfulfilledExpectations_model.
+
+Theorem C08_hasCallsOutOfOrder_model :
+  C08_ListTie.has_like Gen_HeapC08L.src_mlist_hasCallsOutOfOrder
+  (Gen_HeapC08L.LAsk
+  (String.String (Ascii.Ascii true false false true false true true false)
+  (String.String (Ascii.Ascii true true false false true true true false)
+  (String.String (Ascii.Ascii true true true true false false true false)
+  (String.String (Ascii.Ascii true false true false true true true false)
+  (String.String (Ascii.Ascii false false true false true true true false)
+  (String.String (Ascii.Ascii true true true true false false true false)
+  (String.String (Ascii.Ascii false true true false false true true false)
+  (String.String (Ascii.Ascii true true true true false false true false)
+  (String.String (Ascii.Ascii false true false false true true true false)
+  (String.String (Ascii.Ascii false false true false false true true false)
+  (String.String (Ascii.Ascii true false true false false true true false)
+  (String.String (Ascii.Ascii false true false false true true true false)
+  String.EmptyString))))))))))))) C08_ListRep.yes
+  (fun _ : expn => true) e_ooo (fun e : expn => CSem.b2z (e_ooo e)).
+Proof. exact C08_ListTie.hasCallsOutOfOrder_model. Qed.
+Print Assumptions C08_hasCallsOutOfOrder_model.
+
+Theorem C08_hasExpectationWithName_model :
+  forall (nm : Z) (f : name),
+  C08_ListTie.has_like
+  (fun (fuel : nat) (h : CHeap.heap) (evs : list Gen_HeapC08L.lev) (answers : list Z) (this_ : CHeap.hptr) =>
+  Gen_HeapC08L.src_mlist_hasExpectationWithName fuel h evs answers this_ nm)
+  (fun id a : Z =>
+  Gen_HeapC08L.LAskArg
+  (String.String (Ascii.Ascii false true false false true true true false)
+  (String.String (Ascii.Ascii true false true false false true true false)
+  (String.String (Ascii.Ascii false false true true false true true false)
+  (String.String (Ascii.Ascii true false false false false true true false)
+  (String.String (Ascii.Ascii false false true false true true true false)
+  (String.String (Ascii.Ascii true false true false false true true false)
+  (String.String (Ascii.Ascii true true false false true true true false)
+  (String.String (Ascii.Ascii false false true false true false true false)
+  (String.String (Ascii.Ascii true true true true false true true false)
+  String.EmptyString))))))))) id nm a) C08_ListRep.yes
+  (fun _ : expn => true) (relates f) (fun e : expn => CSem.b2z (relates f e)).
+Proof. exact C08_ListTie.hasExpectationWithName_model. Qed.
+Print Assumptions C08_hasExpectationWithName_model.
